@@ -229,12 +229,14 @@ func (s *recStrategy) Select(f rebalancing.WorkloadFeatures, w rebalancing.Workl
 
 type stubTree struct{ size uint64 }
 
-func (s *stubTree) EnableLazyRebalancing(structures.LazyRebalancingConfig) error               { return nil }
-func (s *stubTree) EnableIncrementalRebalancing(structures.IncrementalRebalancingConfig) error { return nil }
-func (s *stubTree) DisableRebalancing() error                                                   { return nil }
-func (s *stubTree) StartBackgroundRebalancing(context.Context) error                            { return nil }
-func (s *stubTree) StopBackgroundRebalancing() error                                            { return nil }
-func (s *stubTree) GetFileSize() uint64                                                         { return s.size }
+func (s *stubTree) EnableLazyRebalancing(structures.LazyRebalancingConfig) error { return nil }
+func (s *stubTree) EnableIncrementalRebalancing(structures.IncrementalRebalancingConfig) error {
+	return nil
+}
+func (s *stubTree) DisableRebalancing() error                        { return nil }
+func (s *stubTree) StartBackgroundRebalancing(context.Context) error { return nil }
+func (s *stubTree) StopBackgroundRebalancing() error                 { return nil }
+func (s *stubTree) GetFileSize() uint64                              { return s.size }
 
 func execC19Selector(t *trace.Trace) *harness.RunResult {
 	res := &harness.RunResult{Probes: map[string]int{}, Fired: map[string]int{}}
